@@ -8,3 +8,13 @@ package httpcache
 // C10: a response is stored only while fresh, with exactly its remaining freshness lifetime.
 //@ func (*RoundTripper).cacheResponse
 //@   props C10
+
+// C11: "a result is served from cache only for a request for which a fresh evaluation (... rendered
+// payload ..., presented credential) would yield the same result". The key of the HTTP cache covers
+// URL, method and the Authorization header - not the request body. A response is therefore taken
+// from, or put into, the cache only for requests that carry no payload by definition (GET, HEAD) -
+// which is also all RFC 7234 allows a stored response to be reused for.
+// (ghost logs: cget = Cache.Get, cset = Cache.Set)
+//@ func (*RoundTripper).RoundTrip
+//@   props C11
+//@   ensures old(req.Method) != "GET" && old(req.Method) != "HEAD" ==> cget.n == old(cget.n) && cset.n == old(cset.n)
